@@ -810,4 +810,31 @@ theorem firstNegative_some (eps : Rat) (ps : List Rat) (idx i : Nat) (h : firstN
       exact ⟨k + 1, by omega, by simpa using hlt, by simpa using hp⟩
 
 
+
+/-! ## output-level cumulative consistency -/
+
+
+theorem map_cast_zipWith_add (a b : List Nat) :
+    (List.zipWith (· + ·) a b).map (fun (c : Nat) => ((c : Int) : Rat)) =
+      List.zipWith (· + ·) (a.map fun (c : Nat) => ((c : Int) : Rat)) (b.map fun (c : Nat) => ((c : Int) : Rat)) := by
+  induction a generalizing b with
+  | nil => simp
+  | cons x xs ih =>
+    cases b with
+    | nil => simp
+    | cons y ys => simp [ih]
+
+theorem entry_times_n (m : Nat) (data : List Int) (n : Int) (hn : 0 < n) :
+    (empiEntry m data n).2.map (fun x => x * (n : Rat)) =
+      (countsOf m (data.take n.toNat)).map fun (c : Nat) => ((c : Int) : Rat) := by
+  have hnq : (n : Rat) ≠ 0 := by
+    have : (0 : Rat) < (n : Rat) := by exact_mod_cast hn
+    exact ne_of_gt this
+  simp only [empiEntry, List.map_map]
+  apply List.map_congr_left
+  intro c _
+  simp only [Function.comp]
+  exact div_mul_cancel₀ _ hnq
+
+
 end QM.C14
